@@ -7714,6 +7714,8 @@ if( *error_return != NO_ERROR )
 
 ADFI_write_disk_pointer_2_disk( file_index, current_location.block,
 	current_location.offset, &end_of_chunk_tag, error_return ) ;
+if( *error_return != NO_ERROR )
+   return ;
 
 current_location.offset += start_offset + DISK_POINTER_SIZE ;
 ADFI_adjust_disk_pointer( &current_location, error_return ) ;
